@@ -14,8 +14,8 @@ import gin
 from vf import rt
 from vf import world
 
-SC = ['', 's1', 's1/s2', 's2', 's2/s1', 's1/s2/s3']          # binding scopes
-ST = [[], ['s1'], ['s1', 's2'], ['s2'], ['s2', 's1'], ['s1', 's2', 's3']]
+SC = ['', 's1', 's1/s2', 's1/s2/s3', 's2', 's2/s1']          # binding scopes
+ST = [[], ['s1'], ['s1', 's2'], ['s1', 's2', 's3'], ['s2'], ['s2', 's1']]
 SHAPES = ['plain', 'dflt', 'kwo', 'var', 'kws', 'Kinit', 'Kreg', 'Kmeth.meth']
 NFORM = 5
 
@@ -258,17 +258,18 @@ HARNESSES = {
                     ca=13, cb=14, cx=15)],
         tiers={
             'quick': dict(
-                split=dict(shape=list(range(8)), stack=list(range(4))),
-                fixed=dict(nsc=4, pa4=False, pa5=False, pb5=False, pb0=False, pb1=False,
-                           pb3=False, pb4=False, form=0), budget_s=100),
+                split=dict(shape=list(range(8)), stack=[0, 2, 3, 4]),
+                fixed=dict(nsc=5, pa4=False, pa5=False, pb5=False, pb0=False, pb1=False,
+                           pb2=False, pb3=False, form=0), budget_s=100),
             'thorough': dict(
                 split=dict(shape=list(range(8)), stack=list(range(6)),
                            form=list(range(5))),
-                fixed=dict(nsc=6, pb0=False, pb3=False, pb4=False, pb5=False),
+                fixed=dict(nsc=6, pb0=False, pb1=False, pb3=False, pb5=False),
                 budget_s=900),
         },
-        bounds='scopes over {s1,s2,s3} up to depth 3; 2 focus parameters; 8 shapes; '
-               '5 ways of entering the stack; values: all ints',
+        bounds='quick: parameter a bound at any subset of the prefix chain "", s1, s1/s2, s1/s2/s3, parameter b at the '
+               'non-prefix scope s2; active stacks [], [s1,s2], [s1,s2,s3], [s2]; 8 shapes; every caller split. '
+               'thorough: 6 binding scopes, 6 stacks, 5 ways of entering the stack. values: all ints',
     ),
     'c01_introspect': dict(
         fn='c01_introspect',
@@ -277,8 +278,8 @@ HARNESSES = {
                     pa3=True, pa4=False, pa5=False, pb0=False, pb1=True, pb2=False,
                     va0=1, va1=2, va2=3, va3=4, va4=5, va5=6, vb0=7, vb1=8, vb2=9)],
         tiers={
-            'quick': dict(split=dict(stack=list(range(4)), q=list(range(4))),
-                          fixed=dict(nsc=4, pa4=False, pa5=False, shape=1, pb2=False)),
+            'quick': dict(split=dict(stack=list(range(5)), q=list(range(5))),
+                          fixed=dict(nsc=5, pa4=False, pa5=False, shape=1, pb2=False)),
             'thorough': dict(split=dict(shape=list(range(8)), stack=list(range(6))),
                              fixed=dict(nsc=6)),
         },
